@@ -259,11 +259,25 @@ def _syncChildren(parent, xmlnodes):
             parent.insert(i, xmlnode)
 
 
-def _correctValInNode(outernode, tagname, value):
+def _correctValInNode(outernode, tagname, value, after=None):
+    """Make the child `tagname` of `outernode` carry `value` (or remove it when
+    `value` is None). A child that has to be created is placed behind the last
+    sibling named in `after` (in front of all children if none of them exists),
+    which keeps the children in the order the schema prescribes; without `after`
+    it is appended."""
     innernode = outernode.find(tag(tagname))
     if value is None and innernode is not None:
         outernode.remove(innernode)
     elif innernode is not None:
         innernode.text = str(value)
     elif value is not None:
-        outernode.append(E(tagname, str(value)))
+        newnode = E(tagname, str(value))
+        if after is None:
+            outernode.append(newnode)
+        else:
+            preceding = [tag(name) for name in after]
+            loc = 0
+            for i, child in enumerate(outernode):
+                if child.tag in preceding:
+                    loc = i + 1
+            outernode.insert(loc, newnode)
